@@ -94,6 +94,169 @@ package reftable
 //@   ensures result == in[0]*65536 + in[1]*256 + in[2]
 //@   ensures result < 16777216
 
+// ---------------------------------------------------------------------------------------------
+// writer side, block level (C14, C01): varint and key encoders, the block writer and its representation invariant
+// ---------------------------------------------------------------------------------------------
+
+// C14: three bytes hold exactly the value (the caller must know it fits: no silent truncation)
+//@ func putU24
+//@   props C14 C01
+//@   requires len(out) >= 3
+//@   requires[fits-24-bits] i < 16777216
+//@   nopanic
+//@   modifies out[0:3]
+//@   ensures out[0]*65536 + out[1]*256 + out[2] == i
+
+//@ func putVarInt
+//@   props C14 C01
+//@   results n, ok
+//@   nopanic
+//@   modifies buf[0:len(buf)]
+//@   ensures[size] ok ==> 1 <= n && n <= 10 && n <= len(buf)
+//@   ensures !ok ==> n == 0
+//@   ensures[last-byte-ends] ok ==> buf[n-1] < 128
+//@   ensures[others-continue] ok ==> (forall k int :: 0 <= k && k < n - 1 ==> buf[k] >= 128)
+//@   loop 1 invariant[idx] -1 <= i && i <= 8 && dest[9] < 128 && (forall k int :: i + 1 <= k && k < 9 ==> dest[k] >= 128)
+//@   loop 1 invariant[bound] (i == 7 ==> val < 144115188075855872) && (i == 6 ==> val < 1125899906842624) && (i == 5 ==> val < 8796093022208) && (i == 4 ==> val < 68719476736) && (i == 3 ==> val < 536870912) && (i == 2 ==> val < 4194304) && (i == 1 ==> val < 32768) && (i == 0 ==> val < 256) && (i == -1 ==> val < 2)
+//@   loop 1 decreases i + 1
+
+//@ func commonPrefixSize
+//@   props C14 C01
+//@   pure
+//@   nopanic
+//@   ensures[bounds] 0 <= result && result <= len(a) && result <= len(b)
+//@   ensures[common] forall k int :: 0 <= k && k < result ==> a[k] == b[k]
+//@   ensures[maximal] result < len(a) && result < len(b) ==> a[result] != b[result]
+//@   loop 1 invariant 0 <= p && p <= len(a) && p <= len(b) && (forall k int :: 0 <= k && k < p ==> a[k] == b[k])
+//@   loop 1 decreases len(a) - p
+
+// C14 (restart tables point at full keys): an entry is a restart exactly when it shares no prefix with its predecessor
+//@ func encodeKey
+//@   props C14 C01
+//@   results n, restart, fits
+//@   requires len(key) < 2305843009213693952
+//@   nopanic
+//@   modifies buf[0:len(buf)]
+//@   ensures[size] fits ==> 2 <= n && n <= len(buf)
+//@   ensures[restart-means-full-key] fits ==> (restart <==> (len(prevKey) == 0 || len(key) == 0 || prevKey[0] != key[0]))
+//@   ensures[full-key-after-empty-predecessor] fits && prevKey == "" ==> restart
+
+// the value encoders of the four record types stay inside the buffer they are given (dynamic calls of record.encode are
+// resolved over these four contracts)
+//@ func encodeString
+//@   props C14 C01
+//@   results n, ok
+//@   nopanic
+//@   modifies buf[0:len(buf)]
+//@   ensures ok ==> 1 <= n && n <= len(buf)
+
+//@ func (*RefRecord).encode
+//@   props C14 C01
+//@   results n, fits
+//@   requires r != nil
+//@   nopanic
+//@   modifies buf[0:len(buf)]
+//@   ensures fits ==> 1 <= n && n <= len(buf)
+
+//@ func (*indexRecord).encode
+//@   props C14 C01
+//@   results n, ok
+//@   requires r != nil
+//@   nopanic
+//@   modifies buf[0:len(buf)]
+//@   ensures ok ==> 1 <= n && n <= len(buf)
+
+//@ func (*objRecord).encode
+//@   props C14 C01
+//@   results n, fits
+//@   requires r != nil
+//@   nopanic
+//@   modifies buf[0:len(buf)]
+//@   ensures fits ==> 0 <= n && n <= len(buf)
+//@   loop 1 invariant -1 <= rangeindex && rangeindex < len(r.Offsets) - 1 && len(buf) <= old(len(buf)) && ref(buf) == old(ref(buf)) && off(buf) + len(buf) == old(off(buf) + len(buf)) && cap(buf) - len(buf) == old(cap(buf) - len(buf))
+
+// a log tombstone has no value bytes; otherwise both hashes must have the table's hash size (the code panics if not)
+//@ func (*LogRecord).encode
+//@   props C14 C01 C07
+//@   results n, fits
+//@   requires l != nil
+//@   modifies buf[0:len(buf)], l.Old, l.New
+//@   ensures fits ==> 0 <= n && n <= len(buf)
+//@   ensures[tombstone-has-no-value] old(logIsDel(l)) ==> n == 0 && fits
+//@   ensures[keeps-given-hashes] (old(l.Old) != nil || old(logIsDel(l)) ==> l.Old == old(l.Old)) && (old(l.New) != nil || old(logIsDel(l)) ==> l.New == old(l.New))
+
+// Representation invariant of a block under construction (C14): the entries lie between the 4-byte block header and
+// `next`; room for the restart table and its 2-byte count is always reserved, so finish cannot overflow the block; the
+// block is shorter than 2^24 bytes (its length field has 3 bytes) and has at most 65535 restarts (2-byte count); restart
+// offsets are strictly increasing positions inside the entry area.
+//@ spec bwOK(w *blockWriter) bool = w != nil && len(w.buf) == w.blockSize && w.blockSize < 16777216 && w.headerOff + 4 <= w.next && w.next + 2 + 3 * len(w.restarts) <= len(w.buf) && len(w.restarts) <= 65535 && w.entries >= 0 && w.entries <= w.next && w.restartInterval != 0 && bwRestarts(w)
+//@ spec bwRestarts(w *blockWriter) bool = forall i int :: 0 <= i && i < len(w.restarts) ==> w.headerOff + 4 <= w.restarts[i] && w.restarts[i] < w.next && (i > 0 ==> w.restarts[i-1] < w.restarts[i])
+
+//@ func newBlockWriter
+//@   props C14 C01
+//@   requires[room-for-header-and-count] headerOff + 6 <= len(buf) && len(buf) < 16777216
+//@   nopanic
+//@   modifies buf[headerOff:headerOff+1]
+//@   ensures result != nil && fresh(result) && bwOK(result) && result.buf == buf && result.headerOff == headerOff && result.entries == 0 && len(result.restarts) == 0 && result.lastKey == "" && result.next == headerOff + 4
+//@   ensures[type-byte] buf[headerOff] == typ
+
+//@ func (*blockWriter).getType
+//@   props C14
+//@   requires w != nil && w.headerOff < len(w.buf)
+//@   pure
+//@   nopanic
+//@   ensures result == w.buf[w.headerOff]
+
+//@ func (*blockWriter).registerRestart
+//@   props C14 C01
+//@   requires bwOK(w) && 0 <= n && n <= len(w.buf) - w.next
+//@   requires restart ==> len(w.restarts) == 0 || w.restarts[len(w.restarts)-1] < w.next
+//@   requires n > 0
+//@   nopanic
+//@   modifies w.next, w.restarts, w.restarts[:cap(w.restarts)], w.lastKey, w.entries
+//@   ensures bwOK(w)
+//@   ensures[refused-leaves-block-unchanged] !result ==> w.next == old(w.next) && w.restarts == old(w.restarts) && w.lastKey == old(w.lastKey) && w.entries == old(w.entries)
+//@   ensures[accepted] result ==> w.next == old(w.next) + n && w.lastKey == key && w.entries == old(w.entries) + 1
+//@   ensures[restart-recorded] result && restart && old(len(w.restarts)) < 65535 ==> len(w.restarts) == old(len(w.restarts)) + 1 && w.restarts[len(w.restarts)-1] == old(w.next)
+//@   ensures[restart-table-capped] len(w.restarts) <= 65535
+//@   ensures[old-restarts-kept] forall i int :: 0 <= i && i < old(len(w.restarts)) ==> w.restarts[i] == old(w.restarts[i])
+
+//@ func (*blockWriter).add
+//@   props C14 C01
+//@   requires bwOK(w) && recAny(r)
+//@   nopanic
+//@   modifies w.next, w.restarts, w.restarts[:cap(w.restarts)], w.lastKey, w.entries, w.buf[0:len(w.buf)], asptr(r, *LogRecord).Old if istype(r, *LogRecord), asptr(r, *LogRecord).New if istype(r, *LogRecord)
+//@   ensures bwOK(w)
+//@   ensures[refused-leaves-block-unchanged] !result ==> w.next == old(w.next) && w.restarts == old(w.restarts) && w.lastKey == old(w.lastKey) && w.entries == old(w.entries)
+//@   ensures[accepted] result ==> w.next > old(w.next) && w.lastKey == keyOf(r) && w.entries == old(w.entries) + 1
+//@   ensures[keeps-given-hashes] istype(r, *LogRecord) ==> (old(asptr(r, *LogRecord).Old) != nil || old(logIsDel(asptr(r, *LogRecord))) ==> asptr(r, *LogRecord).Old == old(asptr(r, *LogRecord).Old)) && (old(asptr(r, *LogRecord).New) != nil || old(logIsDel(asptr(r, *LogRecord))) ==> asptr(r, *LogRecord).New == old(asptr(r, *LogRecord).New))
+//@   ensures[first-entry-is-a-restart] result && old(w.entries) == 0 && old(len(w.restarts)) == 0 ==> len(w.restarts) == 1 && w.restarts[0] == old(w.next)
+
+// in-memory compression into a bytes.Buffer does not fail (assumed)
+//@ extern (*compress/zlib.Writer).Write
+//@   params z, p
+//@   pure
+//@   ensures result1 == nil
+//@ extern (*compress/zlib.Writer).Close
+//@   params z
+//@   pure
+//@   ensures result == nil
+
+// C14: the finished block carries its own length in the header, the restart offsets and their count at the end.
+//@ func (*blockWriter).finish
+//@   props C14 C01
+//@   requires bwOK(w)
+//@   nopanic
+//@   modifies w.next, w.buf[0:len(w.buf)]
+//@   ensures[length-field] w.buf[w.headerOff+1]*65536 + w.buf[w.headerOff+2]*256 + w.buf[w.headerOff+3] == w.next
+//@   ensures[length] w.next == old(w.next) + 3 * len(w.restarts) + 2 && w.next <= len(w.buf)
+//@   ensures[restart-count] w.buf[w.next-2]*256 + w.buf[w.next-1] == len(w.restarts)
+//@   ensures[restart-table] forall i int :: 0 <= i && i < len(w.restarts) ==> w.buf[old(w.next) + 3*i]*65536 + w.buf[old(w.next) + 3*i + 1]*256 + w.buf[old(w.next) + 3*i + 2] == w.restarts[i]
+//@   ensures[ref-block-is-the-buffer-prefix] old(w.buf[w.headerOff]) != 'g' ==> len(data) == w.next && ref(data) == ref(w.buf) && off(data) == off(w.buf)
+//@   loop 1 invariant[tbl] -1 <= rangeindex && rangeindex < len(w.restarts) && w.next == old(w.next) + 3 * (rangeindex + 1) && w.restarts == old(w.restarts) && w.headerOff == old(w.headerOff) && w.buf == old(w.buf) && w != nil
+//@   loop 1 invariant[written] forall i int :: 0 <= i && i <= rangeindex ==> w.buf[old(w.next) + 3*i]*65536 + w.buf[old(w.next) + 3*i + 1]*256 + w.buf[old(w.next) + 3*i + 2] == w.restarts[i]
+//@   loop 1 invariant[hdr] w.buf[w.headerOff] == old(w.buf[w.headerOff])
+
 //@ func newRecord
 //@   props C18 C19
 //@   requires key == ""
@@ -421,7 +584,7 @@ package reftable
 //@   pure
 
 //@ func (HashID).Size
-//@   props C18
+//@   props C18 C14
 //@   requires i == NullHashID || i == SHA1ID || i == SHA256ID
 //@   nopanic
 //@   pure
@@ -949,7 +1112,8 @@ package reftable
 
 //@ spec heldWf() bool = listLen >= 0 && listedExist() && listDistinct() && listLive() && (forall p string :: held[p] ==> isLock(p))
 //@ spec wfStack(st *Stack) bool = wfStack0(st) && sizesOKforStack(st) && stackOpen(st)
-//@ spec wfStack0(st *Stack) bool = heldWf() && st != nil && st.listFile == theListFile && st.reftableDir == theDir && (forall i int :: 0 <= i && i < len(st.stack) ==> st.stack[i] != nil && !isLock(st.stack[i].name))
+//@ spec cfgOK(st *Stack) bool = (st.cfg.BlockSize == 0 || 34 <= st.cfg.BlockSize) && (st.cfg.HashID == SHA1ID || st.cfg.HashID == SHA256ID)
+//@ spec wfStack0(st *Stack) bool = heldWf() && st != nil && cfgOK(st) && st.listFile == theListFile && st.reftableDir == theDir && (forall i int :: 0 <= i && i < len(st.stack) ==> st.stack[i] != nil && !isLock(st.stack[i].name))
 // C10: the handle never holds a closed table
 //@ spec stackOpen(st *Stack) bool = (forall i int :: 0 <= i && i < len(st.stack) ==> !rdClosed[st.stack[i]] && st.stack[i].src != nil) && (forall q *Reader :: rdClosed[q] ==> isalloc(q))
 //@ spec namesMatch(st *Stack) bool = len(st.stack) == listLen && (forall i int :: 0 <= i && i < len(st.stack) ==> st.stack[i].name == listNames[i])
@@ -1053,6 +1217,7 @@ package reftable
 //@ func NewStack
 //@   props C10 C05 C06
 //@   requires heldWf() && dir == theDir && theListFile == pathJoin(dir, "tables.list") && (forall q *Reader :: rdClosed[q] ==> isalloc(q))
+//@   requires[usable-block-size] cfg.BlockSize == 0 || 34 <= cfg.BlockSize
 //@   modifies rdClosed, tblExists, listNames, listLen, lastReadNames, lastReadLen, buflen, bufdata, lastDelta, lastSought, seekOn, seekName, seekIdx, yielded
 //@   ensures result1 == nil ==> result0 != nil && fresh(result0) && wfStack(result0)
 //@   ensures heldSame() && tmpSubset()
@@ -1094,22 +1259,50 @@ package reftable
 //@   ensures forall i int :: 0 <= i && i < listLen ==> result + ".ref" != listNames[i]
 //@   ensures !tblExists[pathJoin(theDir, result + ".ref")] && !retired[result + ".ref"]
 
+// Representation invariant of a table writer (C14): the block buffer has the configured block size, which fits the
+// 3-byte length field and leaves room for a file header, a block header and a restart count; the block under
+// construction, if any, is built in that buffer and satisfies the block invariant.
+//@ spec wOK(w *Writer) bool = w != nil && len(w.block) == w.cfg.BlockSize && 34 <= w.cfg.BlockSize && w.cfg.BlockSize < 16777216 && w.cfg.RestartInterval != 0 && (w.cfg.HashID == NullHashID || w.cfg.HashID == SHA1ID || w.cfg.HashID == SHA256ID) && (w.blockWriter != nil ==> bwOK(w.blockWriter) && w.blockWriter.buf == w.block && w.blockWriter.headerOff <= 28)
+
+//@ func (*Config).setDefaults
+//@   props C14
+//@   modifies cfg.RestartInterval, cfg.BlockSize
+//@   ensures cfg.RestartInterval == (old(cfg.RestartInterval) == 0 ? 16 : old(cfg.RestartInterval)) && cfg.BlockSize == (old(cfg.BlockSize) == 0 ? 4096 : old(cfg.BlockSize))
+
+//@ func (*Writer).headerSize
+//@   props C14
+//@   requires w != nil && (w.cfg.HashID == NullHashID || w.cfg.HashID == SHA1ID || w.cfg.HashID == SHA256ID)
+//@   pure
+//@   nopanic
+//@   ensures result == 24 || result == 28
+
+// C14/C01: a writer is created only for a block size that fits the 3-byte block-length field (and is large enough to
+// hold the file header, a block header and the restart count: smaller sizes make NewWriter panic - a precondition here).
 //@ func NewWriter
-//@   props C16
+//@   props C16 C14 C01
 //@   requires cfg != nil
+//@   requires[usable-config] (cfg.BlockSize == 0 || cfg.BlockSize >= 34) && (cfg.HashID == NullHashID || cfg.HashID == SHA1ID || cfg.HashID == SHA256ID)
 //@   modifies nothing
-//@   ensures result1 == nil ==> result0 != nil && fresh(result0)
+//@   ensures result1 == nil ==> result0 != nil && fresh(result0) && wOK(result0)
+//@   ensures[block-size-fits-24-bits] result1 == nil ==> result0.cfg.BlockSize < 16777216
 //@   ensures result1 != nil ==> result0 == nil
+
+//@ func (*Writer).newBlockWriter
+//@   props C14
+//@   requires w != nil && len(w.block) == w.cfg.BlockSize && 34 <= w.cfg.BlockSize && w.cfg.BlockSize < 16777216 && w.cfg.RestartInterval != 0 && (w.cfg.HashID == NullHashID || w.cfg.HashID == SHA1ID || w.cfg.HashID == SHA256ID)
+//@   modifies w.block[0:len(w.block)]
+//@   ensures result != nil && fresh(result) && bwOK(result) && result.buf == w.block && result.headerOff <= 28 && result.entries == 0 && len(result.restarts) == 0
+//@   ensures[type-byte] result.buf[result.headerOff] == typ
 
 // coarse protocol-level contract (the format clauses are under C14)
 //@ func (*Writer).Close
 //@   trusted
-//@   modifies anyof(*Writer), anyof(*blockWriter), anyof(*paddedWriter), taken
+//@   modifies w.ALLFIELDS, anyof(*blockWriter), taken, anyof([]byte), anyof([]uint32), anyof([]indexRecord)
 
 // Assumption about the caller-supplied transaction function: it writes only to the Writer it is given (and fresh memory).
 //@ callback (*Addition).Add#write
 //@   params w
-//@   modifies anyof(*Writer), anyof(*blockWriter), anyof(*paddedWriter), taken
+//@   modifies w.ALLFIELDS, anyof(*blockWriter), taken, anyof([]byte), anyof([]uint32), anyof([]indexRecord)
 
 // coarse: opens and scans the new table (read-only on the directory)
 //@ func (*Stack).checkAddition
@@ -1122,7 +1315,7 @@ package reftable
 //@ func (*Addition).Add
 //@   props C04 C05 C16 C08 C06
 //@   requires addInv(tr) && tr.lockFileName != ""
-//@   modifies held, ownsTmp, tblExists, fileClosed, fileOf, listNames, listLen, lastReadNames, lastReadLen, appends, commits, buflen, bufdata, lastDelta, lastSought, tr.names, tr.names[:cap(tr.names)], tr.newTables, tr.newTables[:cap(tr.newTables)], tr.nextUpdateIndex, anyof(*Writer), anyof(*blockWriter), anyof(*paddedWriter), retired, rdClosed, taken, seekOn, seekName, seekIdx, yielded
+//@   modifies held, ownsTmp, tblExists, fileClosed, fileOf, listNames, listLen, lastReadNames, lastReadLen, appends, commits, buflen, bufdata, lastDelta, lastSought, tr.names, tr.names[:cap(tr.names)], tr.newTables, tr.newTables[:cap(tr.newTables)], tr.nextUpdateIndex, anyof(*blockWriter), retired, rdClosed, taken, seekOn, seekName, seekIdx, yielded, anyof([]byte), anyof([]uint32), anyof([]indexRecord)
 //@   ensures[inv-a1] tr != nil && tr.stack == old(tr.stack) && tr.lockFileName == old(tr.lockFileName) && tr.lockFile == old(tr.lockFile) && appends == old(appends) && commits == old(commits)
 //@   ensures[inv-a2] heldWf()
 //@   ensures[inv-a3] sizesOKforStack(tr.stack)
@@ -1183,9 +1376,48 @@ package reftable
 //@ ghost wLogTZ int
 //@ ghost wLogMsg string
 
+// record methods used by the writer (assumed for all four record types: pure, no writes)
+//@ iface record.String
+//@   pure
+
+// trusted: hands the bytes to the underlying io.Writer, remembers the padding owed
+//@ func (*paddedWriter).Write
+//@   trusted
+//@   modifies w.pendingPadding
+//@   ensures result1 == nil ==> result0 == len(b) + padding
+
+// trusted: 24 or 28 bytes of file header (binary.Write into a bytes.Buffer)
+//@ func (*Writer).headerBytes
+//@   trusted
+//@   pure
+//@   ensures fresh(result) && (len(result) == 24 || len(result) == 28)
+
+// C14: a flushed block is the finished block of the block writer; afterwards no block is under construction.
+//@ func (*Writer).flushBlock
+//@   props C14 C01
+//@   requires wOK(w)
+//@   modifies w.ALLFIELDS, anyof(*blockWriter), anyof([]byte), anyof([]indexRecord), anyof([]uint32)
+//@   ensures[inv] result == nil ==> wOK(w)
+//@   ensures[flushed] result == nil && old(w.blockWriter) != nil && old(w.blockWriter.entries) > 0 ==> w.blockWriter == nil
+//@   ensures[config-kept] w.cfg == old(w.cfg) && w.block == old(w.block) && w.lastKey == old(w.lastKey) && w.minUpdateIndex == old(w.minUpdateIndex) && w.maxUpdateIndex == old(w.maxUpdateIndex)
+
+// C14 (keys strictly ascending within and across blocks): add refuses - by panicking, here a precondition - a key that is
+// not greater than the last one; the record goes into the current block, or into a fresh block after the full one was flushed.
+//@ func (*Writer).add
+//@   props C14 C01
+//@   requires wOK(w) && recAny(rec)
+//@   modifies w.ALLFIELDS, anyof(*blockWriter), anyof([]byte), anyof([]uint32), anyof([]indexRecord), asptr(rec, *LogRecord).Old if istype(rec, *LogRecord), asptr(rec, *LogRecord).New if istype(rec, *LogRecord)
+//@   ensures[inv] result == nil ==> wOK(w)
+//@   ensures[config-kept] w.cfg == old(w.cfg) && w.block == old(w.block)
+//@   ensures[last-key] w.lastKey == old(keyOf(rec))
+//@   ensures[keys-strictly-ascending] old(w.lastKey) < w.lastKey
+//@   ensures[keeps-given-hashes] istype(rec, *LogRecord) ==> (old(asptr(rec, *LogRecord).Old) != nil || old(logIsDel(asptr(rec, *LogRecord))) ==> asptr(rec, *LogRecord).Old == old(asptr(rec, *LogRecord).Old)) && (old(asptr(rec, *LogRecord).New) != nil || old(logIsDel(asptr(rec, *LogRecord))) ==> asptr(rec, *LogRecord).New == old(asptr(rec, *LogRecord).New))
+
 //@ func (*Writer).AddRef
 //@   trusted
-//@   modifies anyof(*Writer), anyof(*blockWriter), anyof(*paddedWriter)
+//@   requires wOK(w)
+//@   modifies w.ALLFIELDS, anyof(*blockWriter), anyof([]byte), anyof([]uint32), anyof([]indexRecord)
+//@   ensures result == nil ==> wOK(w)
 //@   sets wRefSeq = wRefSeq + 1
 //@   sets wRefName = r.RefName
 //@   sets wRefIdx = r.UpdateIndex
@@ -1195,20 +1427,46 @@ package reftable
 //@   sets wRefTVLen = len(r.TargetValue)
 //@   sets wRefTarget = r.Target
 
-//@ func (*Writer).AddLog
+//@ axiom logKeyLen: forall n string, u uint64 :: len(logKey(n, u)) == len(n) + 9
+//@ extern strings.TrimSpace
+//@   params s
+//@   pure
+//@   ensures len(result) <= len(s)
+//@ extern strings.Contains
+//@   params s, substr
+//@   pure
+//@   ensures len(s) < len(substr) ==> !result
+
+// trusted (section index, object index): ends the current section; afterwards no block is under construction
+//@ func (*Writer).finishPublicSection
 //@   trusted
-//@   modifies anyof(*Writer), anyof(*blockWriter), anyof(*paddedWriter), l.Message
+//@   requires wOK(w)
+//@   modifies w.ALLFIELDS, anyof(*blockWriter), anyof([]byte), anyof([]uint32), anyof([]indexRecord)
+//@   ensures result == nil ==> wOK(w) && w.blockWriter == nil
+//@   ensures w.cfg == old(w.cfg) && w.block == old(w.block)
+
+// C07/C13/C01 (log tombstones stay tombstones): a deletion record reaches the block writer as a deletion record - the
+// message normalisation must not turn its empty message into "\n". The record handed on is *l itself, so the clause
+// is stated on l after the call.
+//@ spec logIsDel(l *LogRecord) bool = l.New == nil && l.Old == nil && l.Name == "" && l.Email == "" && l.Time == 0 && l.TZOffset == 0 && l.Message == ""
+//@ func (*Writer).AddLog
+//@   props C07 C13 C01 C14
+//@   requires wOK(w) && l != nil
+//@   modifies w.ALLFIELDS, anyof(*blockWriter), anyof([]byte), anyof([]uint32), anyof([]indexRecord), l.Message, l.Old, l.New
+//@   ensures[inv] result == nil ==> wOK(w)
+//@   ensures[tombstone-stays-tombstone] old(logIsDel(l)) && old(l.RefName) != "" ==> logIsDel(l)
+//@   ensures[only-the-message-is-normalised] l.RefName == old(l.RefName) && l.UpdateIndex == old(l.UpdateIndex) && (old(l.New) != nil ==> l.New == old(l.New)) && (old(l.Old) != nil ==> l.Old == old(l.Old)) && l.Name == old(l.Name) && l.Email == old(l.Email) && l.Time == old(l.Time) && l.TZOffset == old(l.TZOffset)
 //@   sets wLogSeq = wLogSeq + 1
-//@   sets wLogName = l.RefName
-//@   sets wLogIdx = l.UpdateIndex
-//@   sets wLogNew = ref(l.New)
-//@   sets wLogNewLen = len(l.New)
-//@   sets wLogOld = ref(l.Old)
-//@   sets wLogOldLen = len(l.Old)
-//@   sets wLogPName = l.Name
-//@   sets wLogEmail = l.Email
-//@   sets wLogTime = l.Time
-//@   sets wLogTZ = l.TZOffset
+//@   sets wLogName = old(l.RefName)
+//@   sets wLogIdx = old(l.UpdateIndex)
+//@   sets wLogNew = old(ref(l.New))
+//@   sets wLogNewLen = old(len(l.New))
+//@   sets wLogOld = old(ref(l.Old))
+//@   sets wLogOldLen = old(len(l.Old))
+//@   sets wLogPName = old(l.Name)
+//@   sets wLogEmail = old(l.Email)
+//@   sets wLogTime = old(l.Time)
+//@   sets wLogTZ = old(l.TZOffset)
 //@   sets wLogMsg = old(l.Message)
 
 // C07/C13: what one loop iteration of the compaction did with the record the merged iterator produced.
@@ -1222,6 +1480,7 @@ package reftable
 //@ func (*Writer).SetLimits
 //@   modifies w.minUpdateIndex, w.maxUpdateIndex
 //@   ensures w.minUpdateIndex == min && w.maxUpdateIndex == max
+//@   ensures old(wOK(w)) ==> wOK(w)
 
 // C07/C13, step contracts of the merge: the tables merged are exactly st.stack[first..last], read from the start;
 // every ref record the merged iterator produces is handed to the writer unchanged, except a tombstone when the range
@@ -1232,7 +1491,7 @@ package reftable
 //@ ghost mergedExp *LogExpirationConfig
 //@ func (*Stack).writeCompact
 //@   props C07 C13
-//@   requires wfStack(st) && wr != nil && 0 <= first && first <= last && last < len(st.stack)
+//@   requires wfStack(st) && wOK(wr) && 0 <= first && first <= last && last < len(st.stack)
 //@   callsite (*Merged).SeekLog 1 ghost afterRefs = 1
 //@   ensures[all-records-visited] result == nil ==> logsDone
 //@   sets mergedFirst = first
@@ -1240,20 +1499,20 @@ package reftable
 //@   sets mergedExp = expiration
 //@   loop 2 invariant[ref-step] noneYet || refWrittenAsIs() || (refDropped() && first == 0 && yRefDel)
 //@   loop 3 invariant[log-step] (noneYet || (logWrittenAsIs() && !expired(expiration, yLogTime, yLogIdx)) || (logDropped() && expired(expiration, yLogTime, yLogIdx)))
-//@   modifies buflen, bufdata, lastDelta, lastSought, st.Stats.EntriesWritten, anyof(*Writer), anyof(*blockWriter), anyof(*paddedWriter), anyof(*tableIter), anyof(*indexedTableRefIter), anyof(*blockIter), taken, yielded, seekOn, seekName, seekIdx
+//@   modifies wr.ALLFIELDS, buflen, bufdata, lastDelta, lastSought, st.Stats.EntriesWritten, anyof(*blockWriter), anyof(*tableIter), anyof(*indexedTableRefIter), anyof(*blockIter), taken, yielded, seekOn, seekName, seekIdx, anyof([]byte), anyof([]uint32), anyof([]indexRecord)
 //@   ensures[no-lock-failure] result != ErrLockFailure
 //@   loop 1 invariant[range] first <= i && i <= last + 1 && (subtabs == nil || fresh(subtabs)) && len(subtabs) == i - first && (forall k int :: 0 <= k && k < len(subtabs) ==> iref(subtabs[k]) == st.stack[first + k] && istype(subtabs[k], *Reader))
-//@   loop 2 invariant it != nil && iref(it.impl) != 0 && wr != nil
+//@   loop 2 invariant it != nil && iref(it.impl) != 0 && wOK(wr)
 //@   loop 2 invariant[source] seekOn == merged && seekName == "" && merged.stack == subtabs && len(subtabs) == last - first + 1 && (forall k int :: 0 <= k && k < len(subtabs) ==> iref(subtabs[k]) == st.stack[first + k] && istype(subtabs[k], *Reader))
 //@   loop 1 invariant[limits] wr.minUpdateIndex == st.stack[first].header.MinUpdateIndex && wr.maxUpdateIndex == st.stack[last].header.MaxUpdateIndex
-//@   loop 3 invariant it != nil && iref(it.impl) != 0 && wr != nil
+//@   loop 3 invariant it != nil && iref(it.impl) != 0 && wOK(wr)
 //@   loop 3 invariant[source] seekOn == merged && seekName == "" && seekIdx == 18446744073709551615 && merged.stack == subtabs && len(subtabs) == last - first + 1 && (forall k int :: 0 <= k && k < len(subtabs) ==> iref(subtabs[k]) == st.stack[first + k] && istype(subtabs[k], *Reader))
 
 // C16: on success the temp file is handed to the caller; on failure nothing temporary is left.
 //@ func (*Stack).compactLocked
 //@   props C16 C05 C06 C07 C13
 //@   requires wfStack(st) && 0 <= first && first <= last && last < len(st.stack)
-//@   modifies held, ownsTmp, tblExists, fileClosed, fileOf, listNames, listLen, lastReadNames, lastReadLen, buflen, bufdata, lastDelta, lastSought, st.Stats.EntriesWritten, anyof(*Writer), anyof(*blockWriter), anyof(*paddedWriter), anyof(*tableIter), anyof(*indexedTableRefIter), anyof(*blockIter), taken, yielded, seekOn, seekName, seekIdx, mergedFirst, mergedLast, mergedExp
+//@   modifies held, ownsTmp, tblExists, fileClosed, fileOf, listNames, listLen, lastReadNames, lastReadLen, buflen, bufdata, lastDelta, lastSought, st.Stats.EntriesWritten, anyof(*blockWriter), anyof(*tableIter), anyof(*indexedTableRefIter), anyof(*blockIter), taken, yielded, seekOn, seekName, seekIdx, mergedFirst, mergedLast, mergedExp, anyof([]byte), anyof([]uint32), anyof([]indexRecord)
 //@   ensures listStable() && wfStack(st) && heldSame()
 //@   ensures[no-lock-failure] result1 != ErrLockFailure
 //@   ensures[merged-what-was-asked] result1 == nil || result1 == ErrEmptyTable ==> mergedFirst == first && mergedLast == last && mergedExp == expiration
@@ -1295,7 +1554,7 @@ package reftable
 //@   requires wfStack(st) && !held[listLock()]
 //@   requires (first < last || expiration != nil) ==> 0 <= first && first <= last && last < len(st.stack)
 //@   requires[expiry-rewrites-the-whole-stack] expiration != nil ==> first == 0 && last == len(st.stack) - 1
-//@   modifies held, ownsTmp, tblExists, fileClosed, fileOf, listNames, listLen, lastReadNames, lastReadLen, lockFails, wNames, wLen, appends, commits, buflen, bufdata, lastDelta, lastSought, st.stack, st.merged, st.Stats.Attempts, st.Stats.EntriesWritten, anyof(*Writer), anyof(*blockWriter), anyof(*paddedWriter), anyof(*tableIter), anyof(*indexedTableRefIter), anyof(*blockIter), retired, rdClosed, taken, yielded, seekOn, seekName, seekIdx, mergedFirst, mergedLast, mergedExp
+//@   modifies held, ownsTmp, tblExists, fileClosed, fileOf, listNames, listLen, lastReadNames, lastReadLen, lockFails, wNames, wLen, appends, commits, buflen, bufdata, lastDelta, lastSought, st.stack, st.merged, st.Stats.Attempts, st.Stats.EntriesWritten, anyof(*blockWriter), anyof(*tableIter), anyof(*indexedTableRefIter), anyof(*blockIter), retired, rdClosed, taken, yielded, seekOn, seekName, seekIdx, mergedFirst, mergedLast, mergedExp, anyof([]byte), anyof([]uint32), anyof([]indexRecord)
 //@   callsite os.Rename 2 ghost a = mergedFirst; b = mergedLast; k = (emptyTable ? 0 : 1)
 //@   ensures[expiry-as-asked] result0 && (first < last || expiration != nil) ==> mergedExp == expiration
 //@   ensures[locks-released] heldSubset()
@@ -1344,7 +1603,7 @@ package reftable
 //@   requires wfStack(st) && !held[listLock()]
 //@   requires (first < last || expiration != nil) ==> 0 <= first && first <= last && last < len(st.stack)
 //@   requires[expiry-rewrites-the-whole-stack] expiration != nil ==> first == 0 && last == len(st.stack) - 1
-//@   modifies held, ownsTmp, tblExists, fileClosed, fileOf, listNames, listLen, lastReadNames, lastReadLen, lockFails, wNames, wLen, appends, commits, buflen, bufdata, lastDelta, lastSought, st.stack, st.merged, st.Stats.Attempts, st.Stats.Failures, st.Stats.EntriesWritten, anyof(*Writer), anyof(*blockWriter), anyof(*paddedWriter), anyof(*tableIter), anyof(*indexedTableRefIter), anyof(*blockIter), retired, rdClosed, taken, yielded, seekOn, seekName, seekIdx, mergedFirst, mergedLast, mergedExp
+//@   modifies held, ownsTmp, tblExists, fileClosed, fileOf, listNames, listLen, lastReadNames, lastReadLen, lockFails, wNames, wLen, appends, commits, buflen, bufdata, lastDelta, lastSought, st.stack, st.merged, st.Stats.Attempts, st.Stats.Failures, st.Stats.EntriesWritten, anyof(*blockWriter), anyof(*tableIter), anyof(*indexedTableRefIter), anyof(*blockIter), retired, rdClosed, taken, yielded, seekOn, seekName, seekIdx, mergedFirst, mergedLast, mergedExp, anyof([]byte), anyof([]uint32), anyof([]indexRecord)
 //@   ensures heldSubset() && tmpSubset() && appends == old(appends) && wfStack(st)
 //@   ensures[no-lock-failure] result1 != ErrLockFailure
 //@   ensures[progress] result0 && (first < last || expiration != nil) ==> commits == old(commits) + 1
@@ -1363,7 +1622,7 @@ package reftable
 //@ func (*Stack).AutoCompact
 //@   props C04 C08 C16 C17 C10 C07 C13
 //@   requires wfStack(st) && !held[listLock()]
-//@   modifies held, ownsTmp, tblExists, fileClosed, fileOf, listNames, listLen, lastReadNames, lastReadLen, lockFails, wNames, wLen, appends, commits, buflen, bufdata, lastDelta, lastSought, st.stack, st.merged, st.Stats.Attempts, st.Stats.Failures, st.Stats.EntriesWritten, anyof(*Writer), anyof(*blockWriter), anyof(*paddedWriter), anyof(*tableIter), anyof(*indexedTableRefIter), anyof(*blockIter), retired, rdClosed, taken, yielded, seekOn, seekName, seekIdx, mergedFirst, mergedLast, mergedExp
+//@   modifies held, ownsTmp, tblExists, fileClosed, fileOf, listNames, listLen, lastReadNames, lastReadLen, lockFails, wNames, wLen, appends, commits, buflen, bufdata, lastDelta, lastSought, st.stack, st.merged, st.Stats.Attempts, st.Stats.Failures, st.Stats.EntriesWritten, anyof(*blockWriter), anyof(*tableIter), anyof(*indexedTableRefIter), anyof(*blockIter), retired, rdClosed, taken, yielded, seekOn, seekName, seekIdx, mergedFirst, mergedLast, mergedExp, anyof([]byte), anyof([]uint32), anyof([]indexRecord)
 //@   ensures heldSubset() && tmpSubset() && appends == old(appends) && wfStack(st)
 //@   ensures[no-lock-failure] result != ErrLockFailure
 //@   ensures commits <= old(commits) + 1
@@ -1371,20 +1630,20 @@ package reftable
 //@ func (*Stack).CompactAll
 //@   props C04 C08 C16 C10 C07 C13
 //@   requires wfStack(st) && !held[listLock()] && len(st.stack) > 0
-//@   modifies held, ownsTmp, tblExists, fileClosed, fileOf, listNames, listLen, lastReadNames, lastReadLen, lockFails, wNames, wLen, appends, commits, buflen, bufdata, lastDelta, lastSought, st.stack, st.merged, st.Stats.Attempts, st.Stats.EntriesWritten, anyof(*Writer), anyof(*blockWriter), anyof(*paddedWriter), anyof(*tableIter), anyof(*indexedTableRefIter), anyof(*blockIter), retired, rdClosed, taken, yielded, seekOn, seekName, seekIdx, mergedFirst, mergedLast, mergedExp
+//@   modifies held, ownsTmp, tblExists, fileClosed, fileOf, listNames, listLen, lastReadNames, lastReadLen, lockFails, wNames, wLen, appends, commits, buflen, bufdata, lastDelta, lastSought, st.stack, st.merged, st.Stats.Attempts, st.Stats.EntriesWritten, anyof(*blockWriter), anyof(*tableIter), anyof(*indexedTableRefIter), anyof(*blockIter), retired, rdClosed, taken, yielded, seekOn, seekName, seekIdx, mergedFirst, mergedLast, mergedExp, anyof([]byte), anyof([]uint32), anyof([]indexRecord)
 //@   ensures heldSubset() && tmpSubset() && appends == old(appends) && wfStack(st)
 
 // Assumption about the caller-supplied transaction function (see (*Addition).Add#write).
 //@ callback (*Stack).add#write
 //@   params w
-//@   modifies anyof(*Writer), anyof(*blockWriter), anyof(*paddedWriter), taken
+//@   modifies w.ALLFIELDS, anyof(*blockWriter), taken, anyof([]byte), anyof([]uint32), anyof([]indexRecord)
 
 // C04 (safety core): one transaction; an error means nothing was committed except on the return site of Commit's
 // reload (see known findings); nothing is left locked or temporary (C08, C16).
 //@ func (*Stack).add
 //@   props C04 C08 C09 C16 C10
 //@   requires wfStack(st) && !held[listLock()]
-//@   modifies held, ownsTmp, tblExists, fileClosed, fileOf, listNames, listLen, lastReadNames, lastReadLen, lockFails, wNames, wLen, appends, commits, buflen, bufdata, lastDelta, lastSought, st.stack, st.merged, anyof(*Writer), anyof(*blockWriter), anyof(*paddedWriter), anyof(*Addition), retired, rdClosed, taken, seekOn, seekName, seekIdx, yielded
+//@   modifies held, ownsTmp, tblExists, fileClosed, fileOf, listNames, listLen, lastReadNames, lastReadLen, lockFails, wNames, wLen, appends, commits, buflen, bufdata, lastDelta, lastSought, st.stack, st.merged, anyof(*blockWriter), anyof(*Addition), retired, rdClosed, taken, seekOn, seekName, seekIdx, yielded, anyof([]byte), anyof([]uint32), anyof([]indexRecord)
 //@   ensures[locks-released] heldSubset()
 //@   ensures[no-temp] tmpSubset()
 //@   ensures[at-most-one] appends <= old(appends) + 1 && appends >= old(appends)
@@ -1394,7 +1653,7 @@ package reftable
 //@ func (*Stack).Add
 //@   props C04 C08 C09 C16 C10
 //@   requires wfStack(st) && !held[listLock()]
-//@   modifies held, ownsTmp, tblExists, fileClosed, fileOf, listNames, listLen, lastReadNames, lastReadLen, lockFails, wNames, wLen, appends, commits, buflen, bufdata, lastDelta, lastSought, st.stack, st.merged, st.Stats.Attempts, st.Stats.Failures, st.Stats.EntriesWritten, anyof(*Writer), anyof(*blockWriter), anyof(*paddedWriter), anyof(*tableIter), anyof(*indexedTableRefIter), anyof(*blockIter), anyof(*Addition), retired, rdClosed, taken, yielded, seekOn, seekName, seekIdx, mergedFirst, mergedLast, mergedExp
+//@   modifies held, ownsTmp, tblExists, fileClosed, fileOf, listNames, listLen, lastReadNames, lastReadLen, lockFails, wNames, wLen, appends, commits, buflen, bufdata, lastDelta, lastSought, st.stack, st.merged, st.Stats.Attempts, st.Stats.Failures, st.Stats.EntriesWritten, anyof(*blockWriter), anyof(*tableIter), anyof(*indexedTableRefIter), anyof(*blockIter), anyof(*Addition), retired, rdClosed, taken, yielded, seekOn, seekName, seekIdx, mergedFirst, mergedLast, mergedExp, anyof([]byte), anyof([]uint32), anyof([]indexRecord)
 //@   ensures[locks-released] heldSubset()
 //@   ensures[no-temp] tmpSubset()
 //@   ensures[at-most-one] appends <= old(appends) + 1 && appends >= old(appends)
@@ -1439,6 +1698,14 @@ package reftable
 //@ func (*Reader).MaxUpdateIndex
 //@   pure
 //@   ensures result == r.header.MaxUpdateIndex
+
+// C04/C05: a table reports the hash id of its own header (a version-1 table, which has none, is SHA-1), so a stack of
+// SHA-256 tables accepts its own tables
+//@ func (*Reader).HashID
+//@   props C04 C05
+//@   requires r != nil
+//@   pure
+//@   ensures result == (r.header.HashID == NullHashID ? SHA1ID : r.header.HashID)
 
 //@ func (*Reader).MinUpdateIndex
 //@   pure
